@@ -174,17 +174,26 @@ Definition port_ok (p : N) : bool :=
   && (match digits p with [] => false | 48 :: _ :: _ => false | _ => true end)
   && (List.length (digits p) <=? 5)%nat.
 
-Definition all_ports : list N := map N.of_nat (seq 0 (N.to_nat 65536)).
+Fixpoint nrange (k : nat) (start : N) : list N :=
+  match k with O => [] | S k' => start :: nrange k' (N.succ start) end.
+
+Lemma in_nrange k : forall start p, start <= p -> p < start + N.of_nat k -> In p (nrange k start).
+Proof.
+  induction k as [|k IH]; intros start p H1 H2; [lia|].
+  cbn [nrange]. destruct (N.eq_dec start p) as [->|Ne]; [left; reflexivity|].
+  right. apply IH; lia.
+Qed.
+
+Definition all_ports : list N := nrange (N.to_nat 65536) 0.
 
 Lemma ports_sweep : forallb port_ok all_ports = true.
-Proof. Time vm_compute. reflexivity. Time Qed.
+Proof. vm_cast_no_check (eq_refl true). Qed.
 
 Lemma port_ok_le p : p <= 65535 -> port_ok p = true.
 Proof.
   intro H. pose proof ports_sweep as S. rewrite forallb_forall in S. apply S.
-  unfold all_ports. apply in_map_iff. exists (N.to_nat p). split; [apply N2Nat.id |].
-  Time apply in_seq. Time lia.
-Time Qed.
+  unfold all_ports. apply in_nrange; lia.
+Qed.
 
 Lemma read_digits_app ds : forallb is_digit ds = true -> forall acc c r, is_digit c = false ->
   read_digits acc (ds ++ c :: r) = (fold_left (fun a c => a * 10 + (c - 48)) ds acc, c :: r).
